@@ -2,7 +2,7 @@
 reactive fake SSH server (native/fakenet.py: Server).  Labelled bounded; never counted as proved."""
 
 COMMON = r'''
-import json, sys, os, re, itertools, multiprocessing
+import json, sys, os, re, socket, itertools, multiprocessing
 sys.path.insert(0, %(native)r)
 import fakenet as F
 TIER = %(tier)r
@@ -46,10 +46,15 @@ UNIVERSE = [512, 768, 1024, 1536, 2048, 3072, 4096, 6144, 8192]
 SMALL = 'using small %%d-bit modulus'
 WARN = '2048-bit modulus only provides 112-bits of symmetric strength'
 def one(case):
+    ndebug = 0
+    if len(case) == 5:
+        ndebug, case = case[4], case[:4]
     subset, style, alg, banner = case
     openssh = 'OpenSSH' in banner
     srv = F.Server(['curve25519-sha256', alg], ['ssh-ed25519'], ['aes128-ctr'], ['hmac-sha2-256'], hostkeys={'ssh-ed25519': F.ed25519_blob()},
                    moduli=list(subset), select=style, banner=banner.encode() + b'\r\n')
+    if ndebug:
+        srv.debug_before = {'gex_group': ndebug, 'gex_reply': ndebug}       # SSH_MSG_DEBUG in front of the group and the reply: legal, to be skipped
     fails = []
     def fail(got, want, cls):
         fails.append({'input': {'class': cls, 'moduli': list(subset), 'style': style, 'alg': alg, 'banner': banner}, 'got': got, 'want': want})
@@ -96,6 +101,8 @@ def one(case):
     else:
         if small or warn:
             fail(notes, 'no modulus size note', 'rating-none')
+    if want is None and any('2048-bit modulus' in t or 'fall back' in t for t in texts['info'] + texts['warn'] + texts['fail']):
+        fail(notes, 'no note about a modulus size when none was measured', 'note-without-size')
     fb = [t for t in texts['info'] if 'fallback' in t]
     if follow and want and want != 2048:
         if len(fb) != 1 or ('will use %%d.' %% want) not in fb[0]:
@@ -131,6 +138,7 @@ if TIER == 'quick':
                             work.append((s, sty, a, b))
 else:
     work = [(s, sty, a, b) for s in subsets for sty in styles for a in algs for b in banners]
+work += [(sub, sty, algs[0], banners[0], nd) for sub in ((1024,), (2048, 3072), (512, 4096), (3072,)) for sty in styles for nd in (1, 3)]
 res = run_pool(one, work)
 failures, per = [], {}
 for fl in res:
@@ -157,11 +165,25 @@ def band(bits, lo=2048, hi=3072):
     return 'fail' if bits < lo else ('warn' if bits < hi else 'none')
 def size_notes(notes):
     return sorted((l, t) for l, t in notes if 'modulus' in t or 'elliptic curves that are suspected' in t)
+DEBUGS = [0]
 def audit(keys, hostkeys, extra):
     srv = F.Server(['curve25519-sha256'], keys, ['aes128-ctr'], ['hmac-sha2-256'], hostkeys=hostkeys)
+    if DEBUGS[0]:
+        srv.debug_before = {'kexdh_reply': DEBUGS[0]}
     st, out = F.run_main(['-n', '--skip-rate-test'] + extra + ['s.test'], F.FakeNet({'s.test': srv}))
     return st, out, srv
 def one(case):
+    if case[0] == 'debug':
+        # the same case with SSH_MSG_DEBUG messages in front of every key-exchange reply (legal; they are to be skipped)
+        DEBUGS[0] = case[1]
+        try:
+            r = one(case[2])
+        finally:
+            DEBUGS[0] = 0
+        for f in r:
+            f['input']['debug messages before the reply'] = case[1]
+            f['input']['class'] = 'debug-prefixed:' + f['input']['class']
+        return r
     kind = case[0]
     fails = []
     def fail(got, want, cls, **kw):
@@ -311,6 +333,11 @@ for j, (ck, cb) in enumerate(CAS):
     for i, hb in enumerate((1024, 2032, 2048, 3056, 3072, 4096)):
         work.append(('cert', 'rsa', hb, ck, cb, RSACERT[(i + j) %% 3]))
     work.append(('cert', 'ed25519', 256, ck, cb, 'ssh-ed25519-cert-v01@openssh.com'))
+for nd in (1, 2, 5):
+    work.append(('debug', nd, ('rsa', 1024, ('ssh-rsa', 'rsa-sha2-512'))))
+    work.append(('debug', nd, ('rsa', 4096, ('rsa-sha2-256',))))
+    work.append(('debug', nd, ('cert', 'rsa', 2048, 'rsa', 1024, 'ssh-rsa-cert-v01@openssh.com')))
+    work.append(('debug', nd, ('fixed', 'ssh-ed25519')))
 for names in (('ssh-rsa-cert-v01@openssh.com', 'ssh-ed25519'), ('ssh-ed25519-cert-v01@openssh.com', 'ssh-ed25519'), ('ssh-rsa-cert-v01@openssh.com', 'rsa-sha2-512', 'ssh-ed25519'),
               ('ssh-ed25519', 'ssh-rsa', 'ssh-rsa-cert-v01@openssh.com', 'ssh-ed25519-cert-v01@openssh.com')):
     work.append(('mixed', names))
@@ -378,6 +405,9 @@ def fault_triples(tier):
                 out += [(cert, n, stage, ('close',)), (cert, n, stage, ('stall',)), (cert, n, stage, ('garbage', 64)), (cert, n, stage, ('garbage', 5)),
                         (cert, n, stage, ('segment', 1)), (cert, n, stage, ('dup',))]
                 if stage == 'banner':
+                    for bad in (b'SSH-2.0-OpenSSH_7..4', b'SSH-2.0-OpenSSH_..9p1', b'SSH-2.0-OpenSSH_8.', b'SSH-2.0-OpenSSH_.', b'SSH-2.0-dropbear_2019..78', b'SSH-2.0-libssh-.9', b'SSH-2.0-libssh_0.9.', b'SSH-2.0-OpenSSH_9.9p', b'SSH-2.0-OpenSSH_999999999999999999999.1',
+                                b'SSH-2.0-OpenSSH_', b'SSH-2.0-', b'SSH-2.0-OpenSSH_8.9p1 ' + b'c' * 300, b'SSH-1.99-OpenSSH_3.9', b'SSH-2.0-PuTTY_Release_0.81', b'SSH-2.0-OpenSSH_for_Windows_9.5'):
+                        out.append((cert, n, stage, ('bytes', bad + b'\r\n' + (F.packet(base_server(cert=cert).kex) if n == 0 else b''))))
                     out += [(cert, n, stage, ('prebanner', [b'hello', b'world'])), (cert, n, stage, ('prebanner', [b'x' * 300])),
                             (cert, n, stage, ('bytes', b'SSH-2.0-\xff\xfe\r\n')), (cert, n, stage, ('bytes', b'\r\n\r\n')), (cert, n, stage, ('bytes', b'SSH-1.5-old\r\n')),
                             (cert, n, stage, ('bytes', b'SSH-9.9-future\r\n'))]
@@ -498,7 +528,15 @@ def ssh1_case(arg):
     def pkt(payload, crc_ok=True):
         pad = b'\x00' * (8 - (len(payload) + 4) %% 8)
         return _s.pack('>I', len(payload) + 4) + pad + payload + _s.pack('>I', SSH1.crc32(pad + payload) if crc_ok else 0x12345678)
-    if kind == 'truncate':
+    if kind == 'masks':
+        # a well-formed message with arbitrary cipher / authentication masks (bits beyond the defined ones included)
+        w2 = WriteBuf()
+        w2.write_byte(2); w2.write(b'\x88' * 8)
+        w2.write_int(1024).write_mpint1(0x10001).write_mpint1((1 << 1023) | 5)
+        w2.write_int(2048).write_mpint1(0x10001).write_mpint1((1 << 2047) | 7)
+        w2.write_int(2); w2.write_int(cut); w2.write_int(cut)
+        data = pkt(w2.write_flush())
+    elif kind == 'truncate':
         data = pkt(full[:cut])
     elif kind == 'badcrc':
         data = pkt(full, False)
@@ -513,13 +551,19 @@ def ssh1_case(arg):
     net = F.FakeNet({'s.test': peer})
     net.recv_budget = 20000
     st, out = F.run_main(['-n', '-1', '--skip-rate-test', 's.test'], net)
+    if kind == 'masks':
+        peer.connections = 0
+        net2 = F.FakeNet({'s.test': peer}); net2.recv_budget = 20000
+        stj, outj = F.run_main(['-n', '-1', '-j', '--skip-rate-test', 's.test'], net2)
+        if stj not in (0, 1, 2, 3):
+            st, out = stj, outj
     inp = {'class': 'ssh1', 'stage': 'ssh1-public-key', 'fault': [kind, cut]}
     any_alg = any(l.startswith(('(enc) ', '(aut) ')) for l in out.split('\n'))
-    whole = (kind == 'truncate' and cut == len(full))
+    whole = (kind == 'truncate' and cut == len(full)) or kind == 'masks'
     if st not in (0, 1, 2, 3):
         exc = [l for l in out.split('\n') if re.match(r'^[A-Za-z_.]+(Error|Exception)\b', l)]
         return [{'input': dict(inp, **{'class': 'crash:' + (exc[-1].split(':')[0] if exc else 'status')}), 'got': {'status': st, 'exception': exc[-1][:160] if exc else ''}, 'want': 'a documented status and no uncaught exception'}]
-    if whole and not any_alg:
+    if whole and not any_alg and kind != 'masks':          # (masks without any defined bit give empty lists: nothing to list)
         return [{'input': dict(inp, **{'class': 'ssh1-report-missing'}), 'got': {'status': st}, 'want': 'an SSH-1 algorithm report for a well-formed message'}]
     if not whole and kind in ('truncate', 'rawcut', 'garbage') and (any_alg or st != 1):
         return [{'input': dict(inp, **{'class': 'ssh1-malformed-reported'}), 'got': {'status': st, 'algorithm report': any_alg}, 'want': 'no algorithm report and status 1 for a malformed handshake'}]
@@ -535,7 +579,7 @@ def fallback_case(second):
                  'want': 'one retry with the SSH-1 identification, then a documented status'}]
     return []
 res += [fallback_case(x) for x in ('close', 'garbage', 'always-differs')]
-ssh1_work = [('truncate', c) for c in range(0, 428)] + [('badcrc', 0)] + [('wrongtype', t) for t in (0, 1, 3, 20, 255)] + [('rawcut', c) for c in range(0, 440, 7)] + [('garbage', n) for n in (1, 7, 8, 16, 64)]
+ssh1_work = [('masks', m) for m in (0, 1, 0x24, 0x48, 0x7f, 0x80, 0xa4, 0xff, 0x100, 0xffff, 0x7fffffff, 0xffffffff)] + [('truncate', c) for c in range(0, 428)] + [('badcrc', 0)] + [('wrongtype', t) for t in (0, 1, 3, 20, 255)] + [('rawcut', c) for c in range(0, 440, 7)] + [('garbage', n) for n in (1, 7, 8, 16, 64)]
 res += run_pool(ssh1_case, ssh1_work)
 work = list(work) + ssh1_work
 failures, per = [], {}
@@ -644,6 +688,24 @@ def throttle_case(arg):
     if any(not c['closed'] for c in srv.conn_log):
         fails.append({'input': dict(inp, **{'class': 'throttled-left-open'}), 'got': 'connections left open', 'want': 'all closed'})
     return fails
+def multiaddr_case(n_addr):
+    """a name that resolves to several addresses (dual stack, round robin): one connection per connect, the first address that answers"""
+    srv = base_server(keys=['ssh-ed25519'])
+    net = F.FakeNet({'s.test': srv})
+    extra = ['10.77.0.' + str(k + 1) for k in range(n_addr - 1)]
+    for ip in extra:
+        net.by_ip[ip] = srv
+    net.extra_addresses = {'s.test': extra}
+    st, out = F.run_main(['-n', '--skip-rate-test', 's.test'], net)
+    ref = base_server(keys=['ssh-ed25519'])
+    st0, out0 = F.run_main(['-n', '--skip-rate-test', 's.test'], F.FakeNet({'s.test': ref}))
+    inp = {'class': 'multi-address-target', 'addresses': n_addr}
+    fails = []
+    if len(srv.conn_log) != len(ref.conn_log):
+        fails.append({'input': inp, 'got': {'connections': len(srv.conn_log)}, 'want': {'connections': len(ref.conn_log)}})
+    if any(not c['closed'] for c in srv.conn_log):
+        fails.append({'input': dict(inp, **{'class': 'multi-address-left-open'}), 'got': {'left open': len([c for c in srv.conn_log if not c['closed']])}, 'want': 'all closed'})
+    return fails
 def ssh1_case(second):
     """an SSH-1-only server: it answers an SSH-2 identification with 'Protocol major versions differ.' and closes; the tool retries once with SSH-1"""
     from ssh_audit.writebuf import WriteBuf
@@ -697,7 +759,10 @@ res = run_pool(one, work)
 for second in ('pkm', 'close', 'garbage', 'always-differs'):
     res.append(ssh1_case(second))
 work.extend(['ssh1'] * 4)
-thr = [(a, d) for a in (b'Exceeded MaxStartups\r\n', None, b'\x00\x01garbage', b'HTTP/1.1 400\r\n') for d in (False, True)]
+for n_addr in (2, 3):
+    res.append(multiaddr_case(n_addr))
+work.extend(['multiaddr'] * 2)
+thr = [(a, d) for a in (b'Exceeded MaxStartups\r\n', None, b'\x00\x01garbage', b'HTTP/1.1 400\r\n', socket.timeout('timed out')) for d in (False, True)]
 res += run_pool(throttle_case, thr)
 work.extend(thr)
 failures, per = [], {}
